@@ -22,11 +22,19 @@ struct TimeGen {
 }
 impl TimeGen {
     fn new(rng: &mut Rng) -> Self {
-        let t = match rng.below(4) {
+        let t = match rng.below(5) {
             0 => 0,
             1 => rng.range(-1_000_000_000_000, 1_000_000_000_000),
             2 => -(1i64 << 40) + rng.range(0, 1 << 20),
-            _ => rng.range(0, 1i64 << 41),
+            3 => rng.range(0, 1i64 << 41),
+            // far from zero: beyond 2^53 ns (where f64 no longer holds every nanosecond), nanoseconds
+            // since the Unix epoch, 2^62
+            _ => match rng.below(4) {
+                0 => (1i64 << 53) + rng.range(0, 1 << 30),
+                1 => 1_700_000_000_000_000_000 + rng.range(0, 1_000_000_000_000),
+                2 => 1i64 << 62,
+                _ => -(1i64 << 60) - rng.range(0, 1 << 30),
+            },
         };
         let (lo, hi) = match rng.below(5) {
             0 => (1_000, 14_400_000_000_000),
@@ -171,7 +179,13 @@ pub fn gen_node(prop: &str, kind: &str, profile: u8, tier: Tier, rng: &mut Rng, 
         (Tier::Thorough, 0) => 48,
         (Tier::Thorough, _) => 64,
     };
-    let nev = rng.range(1, maxlen) as usize;
+    let mut nev = rng.range(1, maxlen) as usize;
+    // long histories (the statements have no length limit): a few runs of every kind go to 320 events,
+    // and for the moving averages the window then holds hundreds of samples
+    let long_run = rng.chance(0.02);
+    if long_run {
+        nev = rng.range(130, 320) as usize;
+    }
     let rate = fault_rate(rng, profile == 0);
     let scale = *rng.pick(&[1.0f32, 1.0, 0.125, 16.0, 256.0]);
     let one_signed = rng.chance(0.5);
@@ -194,6 +208,12 @@ pub fn gen_node(prop: &str, kind: &str, profile: u8, tier: Tier, rng: &mut Rng, 
         let w = plan.get("window").max(1);
         tg.lo = (w / 16).max(1);
         tg.hi = (w / 2).max(2).max(tg.lo);
+    }
+    if matches!(kind, "ma_f" | "ma_q") && long_run {
+        let w = plan.get("window").max(1000);
+        plan.set("window", w);
+        tg.lo = (w / 600).max(1);
+        tg.hi = (w / 150).max(2).max(tg.lo);
     }
     // C11 and C12 put no lower bound on the sampling interval: a sixth of their runs sample at
     // nanosecond spacing (1 ns .. 1 us, with the f32::EPSILON-second neighbourhood as special values)
@@ -343,12 +363,20 @@ pub fn gen_node(prop: &str, kind: &str, profile: u8, tier: Tier, rng: &mut Rng, 
     }
     // twins
     if matches!(kind, "pid" | "integral" | "derivative" | "a2s" | "v2s" | "p2s") && profile == 1 {
-        let c = match rng.below(4) {
+        // (shifts up to the ends of the i64 range: the last / first sample lands next to i64::MAX / MIN)
+        let first = plan.ops.iter().find(|o| matches!(o.code.as_str(), "S" | "SS")).map(|o| o.arg(0)).unwrap_or(0);
+        let c = match rng.below(8) {
             0 => 1i64 << 50,
             1 => -(1i64 << 50),
             2 => rng.range(-(1i64 << 50), 1i64 << 50),
-            _ => rng.range(-1_000_000, 1_000_000),
+            3 => rng.range(-1_000_000, 1_000_000),
+            4 => (i64::MAX - 1).checked_sub(tg.t).unwrap_or(1),
+            5 => (i64::MIN + 1).checked_sub(first).unwrap_or(1),
+            6 => (1_700_000_000_000_000_000i64).checked_sub(first).unwrap_or(1),
+            _ => ((1i64 << 53) + 12345).checked_sub(first).unwrap_or(1),
         };
+        // every shifted stamp must stay representable
+        let c = if first.checked_add(c).is_some() && tg.t.checked_add(c).is_some() { c } else { 1 };
         plan.set("shift", if c == 0 { 1 } else { c });
     }
     if kind == "pid" && profile == 1 {
